@@ -173,7 +173,7 @@ def showSt (bl : Blocks) (s : St) : String := s!"(st {showCircX bl s.circ} {show
 /-! ## leaf actions -/
 inductive Act where
   | append (o : Op) | insert (ci : Int) (o : Op) | pop (p : Option (Int × Int))
-  | replace (p : Int × Int) (o : Op) | setCirc (c : Circ)
+  | replace (p : Int × Int) (o : Op) | setCirc (c : Circ) | reparam (a b : Nat)
   | placement (l : List Nat) | imap (l : List Nat) | fmap (l : List Nat)
   | seed (s : Option Int) | error (r : Rat) | model (m : MModel) | gateSet (g : List Nat)
   | target (k n : Nat) | put (k : String) (v : Val) | del (k : String)
@@ -190,6 +190,11 @@ def runAct (s : St) : Act → St × Option Err
   | .pop p => let (c, r) := s.circ.pop p; ({ s with circ := c }, match r with | .ok _ => none | .error e => some e)
   | .replace p o => let (c, e) := exU (s.circ.replace p o); ({ s with circ := c }, e)
   | .setCirc c => ({ s with circ := c }, none)
+  | .reparam a b =>
+    -- `circuit.set_params(v)` with `v[i] = (a*i + b) % 6001 - 3000` (scaled): block operations get
+    -- new parameters, the circuits frozen inside their gates (the block table) do not change
+    let n := (s.circ.iter.map (·.par.length)).sum
+    ({ s with circ := setParams s.circ ((List.range n).map (fun i => ((a * i + b) % 6001 : Nat) - (3000 : Int))) }, none)
   | .placement l => ({ s with data := { s.data with placement := l } }, none)
   | .imap l => ({ s with data := { s.data with initialMapping := l } }, none)
   | .fmap l => ({ s with data := { s.data with finalMapping := l } }, none)
@@ -230,6 +235,7 @@ def parseAct : SE → Option Act
   | .node [.atom "poplast"] => some (.pop none)
   | .node [.atom "replace", a, b, .atom o] => do some (.replace (← parsePt2 a b) (← parseOp o))
   | .node [.atom "setcirc", .atom c] => (parseCirc c).map .setCirc
+  | .node [.atom "reparam", a, b] => do some (.reparam (← a.nat?) (← b.nat?))
   | .node (.atom "placement" :: l) => (atomsNat l).map .placement
   | .node (.atom "imap" :: l) => (atomsNat l).map .imap
   | .node (.atom "fmap" :: l) => (atomsNat l).map .fmap
